@@ -63,6 +63,8 @@ pub enum FailKind {
     Chain,
     /// include recursion that never ends: any error is acceptable, dying is not
     Depth,
+    /// a function-like macro invoked with the wrong number of arguments: reported without position
+    Macro,
 }
 
 #[derive(Clone, Debug, PartialEq)]
@@ -109,6 +111,8 @@ enum Body {
     Object(Vec<Tok>),
     /// `#define CAT(a,b) a##b`
     Paste,
+    /// `#define F(a,b) body` without # and ##
+    Function { params: Vec<String>, body: Vec<Tok> },
 }
 
 #[derive(Clone, Debug)]
@@ -301,8 +305,44 @@ impl State<'_> {
         self.macros.iter().any(|m| m.name == name)
     }
 
-    /// Object-like expansion with the expanding macro disabled during rescanning
+    fn is_function_like(&self, name: &str) -> bool {
+        self.macros
+            .iter()
+            .any(|m| m.name == name && !matches!(m.body, Body::Object(_)))
+    }
+
+    /// C rescans a replacement together with the rest of the source, so a replacement that ends
+    /// in the name of a function-like macro picks up a following "(": that rule (and RSSL's
+    /// approximation of it) is outside the modelled subset
+    fn trailing_function_name(&self, out: &[Tok], next: Option<&Tok>) -> Result<(), Stop> {
+        if let Some(Tok {
+            atom: Atom::Id(last),
+            ..
+        }) = out.last()
+            && next.map(|t| &t.atom) == Some(&Atom::Punct('('))
+            && self.is_function_like(last)
+        {
+            return Err(Stop::Unmodelled(
+                "replacement ends in a function-like macro name followed by (".into(),
+            ));
+        }
+        Ok(())
+    }
+
     fn expand(&self, toks: &[Tok], disabled: &mut Vec<String>, out: &mut Vec<Tok>) -> Result<(), Stop> {
+        self.expand_guarded(toks, disabled, &[], out)
+    }
+
+    /// Macro expansion with the expanding macro disabled during rescanning. `forbidden` are the
+    /// macros being expanded around an argument: C leaves them alone inside the argument, RSSL
+    /// expands arguments with a fresh state, so meeting one of them is outside the common subset.
+    fn expand_guarded(
+        &self,
+        toks: &[Tok],
+        disabled: &mut Vec<String>,
+        forbidden: &[String],
+        out: &mut Vec<Tok>,
+    ) -> Result<(), Stop> {
         let mut i = 0;
         while i < toks.len() {
             let t = &toks[i];
@@ -310,30 +350,91 @@ impl State<'_> {
                 && !disabled.contains(name)
                 && let Some(m) = self.macros.iter().find(|m| &m.name == name)
             {
+                if forbidden.contains(name) {
+                    return Err(Stop::Unmodelled(
+                        "an argument names a macro that is being expanded around it".into(),
+                    ));
+                }
                 match &m.body {
                     Body::Object(body) => {
                         disabled.push(name.clone());
-                        let r = self.expand(body, disabled, out);
+                        let r = self.expand_guarded(body, disabled, forbidden, out);
                         disabled.pop();
                         r?;
                         i += 1;
-                        // C rescans the replacement together with the rest of the source, so a
-                        // replacement that ends in the name of a function-like macro picks up a
-                        // following "(": that rescanning rule is outside the modelled subset
-                        if let Some(Tok {
-                            atom: Atom::Id(last),
-                            ..
-                        }) = out.last()
-                            && toks.get(i).map(|t| &t.atom) == Some(&Atom::Punct('('))
-                            && self
-                                .macros
-                                .iter()
-                                .any(|m| &m.name == last && matches!(m.body, Body::Paste))
-                        {
-                            return Err(Stop::Unmodelled(
-                                "replacement ends in a function-like macro name followed by (".into(),
-                            ));
+                        self.trailing_function_name(out, toks.get(i))?;
+                        continue;
+                    }
+                    Body::Function { params, body } => {
+                        if toks.get(i + 1).map(|t| &t.atom) != Some(&Atom::Punct('(')) {
+                            out.push(t.clone());
+                            i += 1;
+                            continue;
                         }
+                        // split the arguments at commas outside nested parentheses
+                        let mut args: Vec<Vec<Tok>> = vec![Vec::new()];
+                        let mut depth = 0u32;
+                        let mut j = i + 2;
+                        let mut closed = false;
+                        while j < toks.len() {
+                            match &toks[j].atom {
+                                Atom::Punct('(') => {
+                                    depth += 1;
+                                    args.last_mut().unwrap().push(toks[j].clone());
+                                }
+                                Atom::Punct(')') => {
+                                    if depth == 0 {
+                                        closed = true;
+                                        break;
+                                    }
+                                    depth -= 1;
+                                    args.last_mut().unwrap().push(toks[j].clone());
+                                }
+                                Atom::Punct(',') if depth == 0 => args.push(Vec::new()),
+                                _ => args.last_mut().unwrap().push(toks[j].clone()),
+                            }
+                            j += 1;
+                        }
+                        if !closed {
+                            return Err(Stop::Unmodelled("macro arguments leave the line".into()));
+                        }
+                        let arity_ok = if params.is_empty() {
+                            args.len() == 1 && args[0].is_empty()
+                        } else {
+                            args.len() == params.len()
+                        };
+                        if !arity_ok {
+                            return Err(Stop::Fail(Failure {
+                                kind: FailKind::Macro,
+                                at: None,
+                                starts_at: None,
+                            }));
+                        }
+                        // arguments are completely macro replaced before substitution
+                        let mut inner_forbidden: Vec<String> = forbidden.to_vec();
+                        inner_forbidden.extend(disabled.iter().cloned());
+                        let mut expanded: Vec<Vec<Tok>> = Vec::new();
+                        for a in &args {
+                            let mut ea = Vec::new();
+                            self.expand_guarded(a, &mut Vec::new(), &inner_forbidden, &mut ea)?;
+                            expanded.push(ea);
+                        }
+                        let mut replaced: Vec<Tok> = Vec::new();
+                        for bt in body {
+                            if let Atom::Id(b) = &bt.atom
+                                && let Some(pi) = params.iter().position(|p| p == b)
+                            {
+                                replaced.extend(expanded.get(pi).cloned().unwrap_or_default());
+                            } else {
+                                replaced.push(bt.clone());
+                            }
+                        }
+                        disabled.push(name.clone());
+                        let r = self.expand_guarded(&replaced, disabled, forbidden, out);
+                        disabled.pop();
+                        r?;
+                        i = j + 1;
+                        self.trailing_function_name(out, toks.get(i))?;
                         continue;
                     }
                     Body::Paste => {
@@ -763,7 +864,37 @@ impl State<'_> {
                     if compact == format!("define{mname}(a,b)a##b") {
                         Body::Paste
                     } else {
-                        return Err(Stop::Unmodelled("function-like macro".into()));
+                        // NAME ( p1 , p2 ... ) body
+                        let mut params: Vec<String> = Vec::new();
+                        let mut k = 2;
+                        let mut ok = false;
+                        if matches!(rest.get(k), Some(Tok { atom: Atom::Punct(')'), .. })) {
+                            ok = true;
+                            k += 1;
+                        } else {
+                            while let Some(Tok {
+                                atom: Atom::Id(p), ..
+                            }) = rest.get(k)
+                            {
+                                params.push(p.clone());
+                                match rest.get(k + 1).map(|t| &t.atom) {
+                                    Some(Atom::Punct(',')) => k += 2,
+                                    Some(Atom::Punct(')')) => {
+                                        ok = true;
+                                        k += 2;
+                                        break;
+                                    }
+                                    _ => break,
+                                }
+                            }
+                        }
+                        if !ok {
+                            return Err(Stop::Unmodelled("macro parameter list outside the subset".into()));
+                        }
+                        Body::Function {
+                            params,
+                            body: rest[k..].to_vec(),
+                        }
                     }
                 } else {
                     if raw.contains("##") {
